@@ -108,7 +108,8 @@ fn expect_counts(m: &M2Model) -> Vec<(&'static str, usize)> {
 }
 
 /// Walk the written container; returns the header to use for further decoding.
-fn walk(r: &mut CaseResult, b: &[u8], what: &str, expect: &[(&str, usize)]) -> Option<walker::Hdr> {
+fn walk(r: &mut CaseResult, b: &[u8], what: &str, expect: &[(&str, usize)]) -> Option<(walker::Hdr, bool)> {
+    let mut combos_missing = false;
     let mut h = match walker::header(b) {
         Ok(h) => h,
         Err(e) => {
@@ -116,6 +117,7 @@ fn walk(r: &mut CaseResult, b: &[u8], what: &str, expect: &[(&str, usize)]) -> O
             match walker::header_opts(b, true) {
                 Ok(h) if h.flags & 8 != 0 => {
                     r.viol(format!("{what}: header is shorter than its flags require (flag 0x8 set, texture_combiner_combos field missing)"), e);
+                    combos_missing = true;
                     h
                 }
                 _ => {
@@ -133,12 +135,44 @@ fn walk(r: &mut CaseResult, b: &[u8], what: &str, expect: &[(&str, usize)]) -> O
                 format!("first section starts at {} but a header with the combiner field is {} bytes", min_off.unwrap(), h.len),
             );
             h = walker::header_opts(b, true).unwrap();
+            combos_missing = true;
         }
     }
     for f in walker::check_layout(b, &h, expect, what) {
         r.viol(f.symptom, f.detail);
     }
-    Some(h)
+    Some((h, combos_missing))
+}
+
+/// Report the findings of the independent decode. A misplaced texture file name means the
+/// writer patched the (count, offset) of the name into the wrong place of the data section, which
+/// clobbers whatever section lies there; the rest of such a file cannot be judged, so only
+/// that finding is reported and `false` is returned.
+fn report_indep(r: &mut CaseResult, f: Vec<walker::Finding>) -> bool {
+    if let Some(t) = f.iter().find(|x| x.symptom.contains("section textures (file name)")) {
+        r.viol(t.symptom.clone(), t.detail.clone());
+        r.outcome.push_str("texture_name_misplaced;");
+        return false;
+    }
+    for x in f {
+        r.viol(x.symptom, x.detail);
+    }
+    true
+}
+
+/// parse a file the library wrote; when the header announces the combiner field without carrying
+/// it, a parser that honours the flag runs past the end: that refusal is attributed to the header
+macro_rules! parse_written {
+    ($r:expr, $bytes:expr, $step:expr, $combos_missing:expr) => {
+        match m2_parse($bytes) {
+            Call::Err(e) if $combos_missing => {
+                $r.viol(format!("{} returns Err (the file announces texture_combiner_combos without carrying the field)", $step), e);
+                $r.outcome.push_str("parse_err_combos;");
+                return;
+            }
+            other => step!($r, other, $step, false),
+        }
+    };
 }
 
 fn diff_sections(r: &mut CaseResult, what: &str, exp: &[(&'static str, String)], got: &[(&'static str, String)]) -> usize {
@@ -247,24 +281,38 @@ fn describe_model(c: &MCase) -> (Value, Value) {
 
 struct M2Space {
     models: Vec<MCase>,
+    /// (name, version, header number, float rotation)
+    versions: Vec<(&'static str, M2Version, u32, usize)>,
+}
+impl M2Space {
+    fn new(maxdev: usize, rotations: &[usize]) -> Self {
+        let mut versions = vec![];
+        for &rot in rotations {
+            versions.extend(gen::VERSIONS.iter().map(|(n, v)| (*n, *v, v.to_header_version(), rot)));
+            versions.extend(gen::ALT_NUMBERS.iter().map(|(n, v, k)| (*n, *v, *k, rot)));
+        }
+        M2Space { models: enum_models(maxdev), versions }
+    }
 }
 impl Space for M2Space {
     fn len(&self) -> u64 {
-        (self.models.len() * gen::VERSIONS.len()) as u64
+        (self.models.len() * self.versions.len()) as u64
     }
     fn describe(&self, i: u64) -> Value {
-        let c = &self.models[i as usize / gen::VERSIONS.len()];
+        let c = &self.models[i as usize / self.versions.len()];
         let (dev, sites) = describe_model(c);
-        json!({"space": "m2", "version": gen::VERSIONS[i as usize % gen::VERSIONS.len()].0, "base": (["empty", "full"][c.base as usize]), "dev": dev, "sites": sites})
+        let v = self.versions[i as usize % self.versions.len()];
+        json!({"space": "m2", "version": v.0, "header_number": v.2, "float_rotation": v.3, "base": (["empty", "full"][c.base as usize]), "dev": dev, "sites": sites})
     }
     fn run(&self, i: u64) -> CaseResult {
-        let c = &self.models[i as usize / gen::VERSIONS.len()];
-        let (vname, ver) = gen::VERSIONS[i as usize % gen::VERSIONS.len()];
+        let c = &self.models[i as usize / self.versions.len()];
+        let (vname, ver, vnum, rot) = self.versions[i as usize % self.versions.len()];
+        gen::set_float_rotation(rot);
         let lv = levels_of(c);
         let mut r = CaseResult::new();
-        r.key = format!("m2/{vname}/{:?}", lv);
+        r.key = format!("m2/{vname}/{rot}/{:?}", lv);
         r.nontrivial = lv.iter().any(|l| *l != 0);
-        let m = gen::build(ver, &lv);
+        let m = gen::build_numbered(ver, vnum, &lv);
         api_roundtrip(&mut r, &m, ver);
         if r.outcome.is_empty() {
             r.outcome = "held".into();
@@ -282,15 +330,33 @@ fn api_roundtrip(r: &mut CaseResult, m: &M2Model, ver: M2Version) {
     let w1 = step!(r, m2_write(m), "write(model)", true);
     r.count("writes", 1);
     r.count("bytes_written", w1.len() as u64);
-    let Some(h1) = walk(r, &w1, "write(model)", &expect_counts(&exp)) else { return };
-    for f in indep::compare(&w1, &h1, &exp, "write(model)", &[]) {
-        r.viol(f.symptom, f.detail);
+    let n0 = r.viols.len();
+    let Some((h1, combos_missing)) = walk(r, &w1, "write(model)", &expect_counts(&exp)) else { return };
+    let structural = r.viols.len() - if combos_missing { 1 } else { 0 } != n0;
+    if !report_indep(r, indep::compare(&w1, &h1, &exp, "write(model)", &[])) || structural || r.viols.len() - if combos_missing { 1 } else { 0 } != n0 {
+        // the independent decode already found the file wrong: what the library's parser makes of
+        // a malformed file is not the subject (and may be an out-of-proportion allocation)
+        r.outcome.push_str("written_file_malformed;");
+        return;
     }
-    let p1 = step!(r, m2_parse(&w1), "parse(write(model))", false);
+    let p1 = parse_written!(r, &w1, "parse(write(model))", combos_missing);
     r.count("parses", 1);
-    diff_sections(r, "parse(write(model)) differs from the model", &cmp::sections(&exp, false), &cmp::sections(&p1, false));
-    let w2 = step!(r, m2_write(&p1), "write(parse(write(model)))", false);
-    byte_diff(r, "write(parse(write(model))) is not byte-identical to write(model)", &w1, &w2);
+    // the format-detecting entry point must agree with M2Model::parse
+    match call(|| wow_m2::parse_m2(&mut Cursor::new(&w1[..])).map_err(|e| e.to_string())) {
+        Call::Ok(f) => {
+            if !f.is_legacy() || format!("{:?}", cmp::sections(f.model(), true)) != format!("{:?}", cmp::sections(&p1, true)) {
+                r.viol("parse_m2 and M2Model::parse disagree on a written MD20 file", "");
+            }
+        }
+        Call::Err(e) => r.viol("parse_m2 rejects a written MD20 file that M2Model::parse accepts", e),
+        Call::Panic(c, d) => r.viol(format!("{c} [parse_m2(write(model))]"), d),
+    }
+    let nd = diff_sections(r, "parse(write(model)) differs from the model", &cmp::sections(&exp, false), &cmp::sections(&p1, false));
+    if nd == 0 {
+        // (a content difference already implies different bytes; judged only when content agrees)
+        let w2 = step!(r, m2_write(&p1), "write(parse(write(model)))", false);
+        byte_diff(r, "write(parse(write(model))) is not byte-identical to write(model)", &w1, &w2);
+    }
     // conversion to the same version changes nothing (both entry points)
     let c1 = step!(r, call(|| m.convert(ver).map_err(|e| e.to_string())), "convert(model, same version)", false);
     let wc = step!(r, m2_write(&c1), "write(convert(model, same version))", false);
@@ -304,32 +370,34 @@ fn api_roundtrip(r: &mut CaseResult, m: &M2Model, ver: M2Version) {
 
 struct ConvSpace {
     models: Vec<MCase>,
+    rotations: Vec<usize>,
 }
 const NV: usize = 5;
 impl ConvSpace {
-    fn decode(&self, i: u64) -> (usize, usize, usize, usize) {
-        let d = vcore::gen::mixed_radix(i, &[NV as u64, NV as u64, 2, self.models.len() as u64]);
-        (d[3] as usize, d[1] as usize, d[0] as usize, d[2] as usize) // model, from, to, entry point
+    fn decode(&self, i: u64) -> (usize, usize, usize, usize, usize) {
+        let d = vcore::gen::mixed_radix(i, &[NV as u64, NV as u64, 2, self.rotations.len() as u64, self.models.len() as u64]);
+        (d[4] as usize, d[1] as usize, d[0] as usize, d[2] as usize, self.rotations[d[3] as usize]) // model, from, to, entry point, rotation
     }
 }
 impl Space for ConvSpace {
     fn len(&self) -> u64 {
-        (self.models.len() * NV * NV * 2) as u64
+        (self.models.len() * NV * NV * 2 * self.rotations.len()) as u64
     }
     fn describe(&self, i: u64) -> Value {
-        let (mi, from, to, ep) = self.decode(i);
+        let (mi, from, to, ep, rot) = self.decode(i);
         let c = &self.models[mi];
         let (dev, sites) = describe_model(c);
-        json!({"space": "m2conv", "from": gen::VERSIONS[from].0, "to": gen::VERSIONS[to].0, "via": (["M2Model::convert", "M2Converter::convert"][ep]),
+        json!({"space": "m2conv", "from": gen::VERSIONS[from].0, "to": gen::VERSIONS[to].0, "via": (["M2Model::convert", "M2Converter::convert"][ep]), "float_rotation": rot,
                "base": (["empty", "full"][c.base as usize]), "dev": dev, "sites": sites})
     }
     fn run(&self, i: u64) -> CaseResult {
-        let (mi, from, to, ep) = self.decode(i);
+        let (mi, from, to, ep, rot) = self.decode(i);
         let c = &self.models[mi];
         let lv = levels_of(c);
         let mut r = CaseResult::new();
-        r.key = format!("conv/{from}/{to}/{ep}/{:?}", lv);
+        r.key = format!("conv/{from}/{to}/{ep}/{rot}/{:?}", lv);
         r.nontrivial = lv.iter().any(|l| *l != 0);
+        gen::set_float_rotation(rot);
         let src = gen::build(gen::VERSIONS[from].1, &lv);
         conv_case(&mut r, &src, gen::VERSIONS[from].1, gen::VERSIONS[to].1, ep);
         if r.outcome.is_empty() {
@@ -367,11 +435,19 @@ fn conv_case(r: &mut CaseResult, src: &M2Model, from: M2Version, to: M2Version, 
     }
     let mut exp = gen::canon(src, b);
     gen::strip_uncommon(&mut exp, a, b);
-    let Some(hc) = walk(r, &wc, "write(convert(model))", &expect_counts(&exp)) else { return };
+    let n0 = r.viols.len();
+    let Some((hc, combos_missing)) = walk(r, &wc, "write(convert(model))", &expect_counts(&exp)) else { return };
     if hc.version != b {
         r.viol("converted file does not carry the target header version", format!("wanted {b} got {}", hc.version));
     }
-    let mut pc = step!(r, m2_parse(&wc), "parse(write(convert(model)))", false);
+    let structural = r.viols.len() - if combos_missing { 1 } else { 0 } != n0;
+    // the written bytes must carry the source content (independent decode; version-specific
+    // record fields are skipped by giving the decoder the stripped expectation)
+    if !report_indep(r, indep::compare(&wc, &hc, &exp, "write(convert(model))", &["animations", "bones", "cameras"])) || structural || r.viols.len() - if combos_missing { 1 } else { 0 } != n0 {
+        r.outcome.push_str("written_file_malformed;");
+        return;
+    }
+    let mut pc = parse_written!(r, &wc, "parse(write(convert(model)))", combos_missing);
     gen::strip_uncommon(&mut pc, a, b);
     exp.header.version = b;
     diff_sections(r, "conversion loses content representable in both versions", &cmp::sections(&exp, false), &cmp::sections(&pc, false));
@@ -406,26 +482,26 @@ impl SeedSpace {
         subsets.push(t.to_vec());
         SeedSpace { subsets }
     }
-    fn decode(&self, i: u64) -> (usize, usize, usize, bool, usize) {
-        let d = vcore::gen::mixed_radix(i, &[NV as u64, 2, 2, 2, self.subsets.len() as u64]);
-        (d[4] as usize, [1, 3][d[1] as usize], [1, 3][d[2] as usize], d[3] == 1, d[0] as usize)
+    fn decode(&self, i: u64) -> (usize, usize, usize, usize, usize) {
+        let d = vcore::gen::mixed_radix(i, &[NV as u64, 2, 3, 3, self.subsets.len() as u64]);
+        (d[4] as usize, [1, 3][d[1] as usize], [1, 3, 0][d[2] as usize], d[3] as usize, d[0] as usize)
     }
 }
 impl Space for SeedSpace {
     fn len(&self) -> u64 {
-        (self.subsets.len() * 8 * NV) as u64
+        (self.subsets.len() * 18 * NV) as u64
     }
     fn describe(&self, i: u64) -> Value {
-        let (si, n, k, share, v) = self.decode(i);
-        json!({"space": "seed", "version": gen::VERSIONS[v].0, "tracked_sections": self.subsets[si], "records": n, "keys": k, "shared_timestamps": share})
+        let (si, n, k, variant, v) = self.decode(i);
+        json!({"space": "seed", "version": gen::VERSIONS[v].0, "tracked_sections": self.subsets[si], "records": n, "keys": k, "variant": emit::VARIANTS[variant]})
     }
     fn run(&self, i: u64) -> CaseResult {
-        let (si, n, k, share, v) = self.decode(i);
+        let (si, n, k, variant, v) = self.decode(i);
         let mut r = CaseResult::new();
         r.key = format!("seed/{i}");
         r.nontrivial = !self.subsets[si].is_empty();
         let ver = gen::VERSIONS[v].1;
-        let seed = emit::make_seed(ver.to_header_version(), &self.subsets[si], n, k, share);
+        let seed = emit::make_seed(ver.to_header_version(), &self.subsets[si], n, k, variant);
         seed_case(&mut r, &seed, ver);
         if r.outcome.is_empty() {
             r.outcome = "held".into();
@@ -454,97 +530,175 @@ fn seed_expect(seed: &emit::Seed) -> Vec<(&'static str, usize)> {
     v
 }
 
-/// compare the key frames found in `b` with those of the seed; `a`/`bv`: source / file version
-fn keyframes_vs_seed(r: &mut CaseResult, what: &str, b: &[u8], h: &walker::Hdr, seed: &emit::Seed, src_ver: u32) {
+/// order in which the crate's writer lays the animated sections out; a mis-sized section shifts
+/// everything behind it, so the comparison stops at the first section that fails
+const FILE_ORDER: [&str; 11] = [
+    "bones",
+    "views",
+    "particle_emitters",
+    "ribbon_emitters",
+    "texture_animations",
+    "color_animations",
+    "transparency_animations",
+    "events",
+    "attachments",
+    "cameras",
+    "lights",
+];
+
+/// What a key-frame comparison could not confirm: the failed (section, component) pairs and the
+/// position in FILE_ORDER from which on nothing was judged (a mis-sized section shifts all later ones).
+#[derive(Default, Clone)]
+struct Unjudged {
+    comps: std::collections::BTreeSet<String>,
+    from: Option<usize>,
+}
+impl Unjudged {
+    fn clean(&self) -> bool {
+        self.comps.is_empty() && self.from.is_none()
+    }
+}
+
+/// Compare the key frames found in `b` with those of the seed; `src_ver`: version of the seed,
+/// `h.version`: version of the file. Every failing component is its own violation class
+/// ("<what>: section <s>: <component>"). Components / sections listed in `skip` are not judged
+/// (used for conversions of a seed whose plain round trip already lost them).
+fn keyframes_vs_seed(r: &mut CaseResult, what: &str, b: &[u8], h: &walker::Hdr, seed: &emit::Seed, src_ver: u32, skip: &Unjudged) -> Unjudged {
     let fv = h.version;
-    for (sec, want) in &seed.tracks {
-        let Some(got) = walker::tracks(b, h, sec) else {
-            r.viol(format!("{what}: section {sec} (records unreadable)"), "record array outside file");
-            continue;
-        };
-        if got.len() != want.len() {
-            continue; // reported by the layout check
+    let mut out = Unjudged::default();
+    for (pos, sec) in FILE_ORDER.iter().enumerate() {
+        if skip.from.map(|f| pos >= f).unwrap_or(false) {
+            break;
         }
-        let bone_ranges = *sec != "bones" || (src_ver < 264 && fv < 264);
-        'sec: for (i, (gr, wr)) in got.iter().zip(want.iter()).enumerate() {
-            for (j, (g, w)) in gr.iter().zip(wr.iter()).enumerate() {
-                let mut bad = vec![];
-                if g.times != w.times {
-                    bad.push("timestamps");
+        let mut bad: Vec<(&str, String)> = vec![];
+        match *sec {
+            "events" => {
+                if seed.events.is_empty() {
+                    continue;
                 }
-                if g.values != w.values {
-                    bad.push("values");
+                match walker::event_arrays(b, h) {
+                    Some(got) if got.len() == seed.events.len() => {
+                        for (i, ((gr, gt), (wr, wt))) in got.iter().zip(seed.events.iter()).enumerate() {
+                            if gt.as_ref() != Some(wt) {
+                                bad.push(("timestamps", format!("event {i}: want {:?} got {:?}", wt, gt)));
+                            }
+                            if src_ver <= 263 && fv <= 263 && gr.as_ref() != Some(wr) {
+                                bad.push(("ranges", format!("event {i}: want {:?} got {:?}", wr, gr)));
+                            }
+                            if !bad.is_empty() {
+                                break;
+                            }
+                        }
+                    }
+                    Some(_) => bad.push(("record count", String::new())),
+                    None => bad.push(("records unreadable", "record array outside file".into())),
                 }
-                if bone_ranges && g.ranges != w.ranges {
-                    bad.push("ranges");
+            }
+            "views" => {
+                if seed.views.is_empty() || fv > 263 {
+                    continue;
                 }
-                if (g.interp, g.gseq) != (w.interp, w.gseq) {
-                    bad.push("interpolation/global-sequence");
+                match walker::views(b, h) {
+                    Some(got) if got.len() == seed.views.len() => {
+                        // the sub-mesh record has 32 bytes below header version 260 and 48 from 260 on:
+                        // across that boundary only the number of records is comparable
+                        let same_sub = (src_ver < 260) == (fv < 260);
+                        let (sf, st) = (if src_ver < 260 { 32 } else { 48 }, if fv < 260 { 32 } else { 48 });
+                        for (i, (g, w)) in got.iter().zip(seed.views.iter()).enumerate() {
+                            let d = format!("embedded skin profile {i}");
+                            if g.indices != w.indices {
+                                bad.push(("indices", d.clone()));
+                            }
+                            if g.triangles != w.triangles {
+                                bad.push(("triangles", d.clone()));
+                            }
+                            if g.properties != w.properties {
+                                bad.push(("properties", d.clone()));
+                            }
+                            if same_sub && g.submeshes != w.submeshes {
+                                bad.push(("submeshes", d.clone()));
+                            }
+                            if !same_sub && g.submeshes.as_ref().map(|x| x.len() / st) != w.submeshes.as_ref().map(|x| x.len() / sf) {
+                                bad.push(("submesh count", format!("{d}: {:?} records of {st} bytes, seed has {:?} of {sf}", g.submeshes.as_ref().map(|x| x.len() / st), w.submeshes.as_ref().map(|x| x.len() / sf))));
+                            }
+                            if g.batches != w.batches {
+                                bad.push(("batches", format!("{d}: {:?} batch bytes, seed has {:?}", g.batches.as_ref().map(|x| x.len()), w.batches.as_ref().map(|x| x.len()))));
+                            }
+                            if g.bone_count_max != w.bone_count_max {
+                                bad.push(("bone_count_max", d.clone()));
+                            }
+                            if !bad.is_empty() {
+                                break;
+                            }
+                        }
+                    }
+                    Some(_) => bad.push(("record count", String::new())),
+                    None => bad.push(("records unreadable", "record array outside file".into())),
                 }
-                if !bad.is_empty() {
-                    r.viol(
-                        format!("{what}: section {sec} ({})", bad.join("+")),
-                        format!("record {i} value {j}: want {:?} got {:?}", short(w), short(g)),
-                    );
-                    break 'sec;
+            }
+            sec => {
+                let Some(want) = seed.tracks.get(sec) else { continue };
+                match walker::tracks(b, h, sec) {
+                    None => bad.push(("records unreadable", "record array outside file".into())),
+                    Some(got) if got.len() != want.len() => bad.push(("record count", String::new())),
+                    Some(got) => {
+                        let bone_ranges = sec != "bones" || (src_ver < 264 && fv < 264);
+                        'sec: for (i, (gr, wr)) in got.iter().zip(want.iter()).enumerate() {
+                            for (j, (g, w)) in gr.iter().zip(wr.iter()).enumerate() {
+                                let d = format!("record {i} value {j}: want {} got {}", short(w), short(g));
+                                if g.times != w.times {
+                                    bad.push(("timestamps", d.clone()));
+                                }
+                                if g.values != w.values {
+                                    bad.push(("values", d.clone()));
+                                }
+                                if bone_ranges && g.ranges != w.ranges {
+                                    bad.push(("ranges", d.clone()));
+                                }
+                                if (g.interp, g.gseq) != (w.interp, w.gseq) {
+                                    if w.times.as_ref().map(|x| x.is_empty()).unwrap_or(true) {
+                                        bad.push(("header (interpolation type / global sequence) of a key-less animated value", d.clone()));
+                                    } else {
+                                        bad.push(("interpolation type / global sequence", d.clone()));
+                                    }
+                                }
+                                if !bad.is_empty() {
+                                    break 'sec;
+                                }
+                            }
+                        }
+                    }
                 }
             }
         }
-    }
-    if !seed.events.is_empty() {
-        match walker::event_arrays(b, h) {
-            Some(got) if got.len() == seed.events.len() => {
-                for (i, ((gr, gt), (wr, wt))) in got.iter().zip(seed.events.iter()).enumerate() {
-                    let mut bad = vec![];
-                    if gt.as_ref() != Some(wt) {
-                        bad.push("timestamps");
-                    }
-                    if src_ver <= 263 && fv <= 263 && gr.as_ref() != Some(wr) {
-                        bad.push("ranges");
-                    }
-                    if !bad.is_empty() {
-                        r.viol(format!("{what}: section events ({})", bad.join("+")), format!("event {i}: want ranges {:?} times {:?}, got {:?} {:?}", wr, wt, gr, gt));
-                        break;
-                    }
+        let mut shifted = false;
+        for (comp, detail) in bad {
+            let key = format!("{sec}: {comp}");
+            if skip.comps.contains(&key) {
+                if !comp.starts_with("header (") {
+                    shifted = true;
                 }
+                continue;
             }
-            Some(_) => {}
-            None => r.viol(format!("{what}: section events (records unreadable)"), "record array outside file"),
+            if comp != "record count" {
+                // (a count mismatch is reported by the layout check)
+                r.viol(format!("{what}: section {key}"), detail);
+            }
+            out.comps.insert(key);
+            // a reset header of a key-less value does not move any bytes; everything else may
+            if !comp.starts_with("header (") {
+                shifted = true;
+            }
+        }
+        if shifted {
+            out.from = Some(pos + 1);
+            break;
         }
     }
-    if !seed.views.is_empty() && fv <= 263 {
-        match walker::views(b, h) {
-            Some(got) if got.len() == seed.views.len() => {
-                for (i, (g, w)) in got.iter().zip(seed.views.iter()).enumerate() {
-                    let mut bad = vec![];
-                    if g.indices != w.indices {
-                        bad.push("indices");
-                    }
-                    if g.triangles != w.triangles {
-                        bad.push("triangles");
-                    }
-                    if g.properties != w.properties {
-                        bad.push("properties");
-                    }
-                    if g.submeshes != w.submeshes {
-                        bad.push("submeshes");
-                    }
-                    if g.batches != w.batches {
-                        bad.push("batches");
-                    }
-                    if g.bone_count_max != w.bone_count_max {
-                        bad.push("bone_count_max");
-                    }
-                    if !bad.is_empty() {
-                        r.viol(format!("{what}: embedded skin profile ({})", bad.join("+")), format!("view {i}"));
-                        break;
-                    }
-                }
-            }
-            Some(_) => {}
-            None => r.viol(format!("{what}: embedded skin profile (records unreadable)"), "record array outside file"),
-        }
+    if out.from.is_none() {
+        out.from = skip.from;
     }
+    out
 }
 
 fn short(t: &walker::TrackData) -> String {
@@ -566,7 +720,7 @@ fn seed_case(r: &mut CaseResult, seed: &emit::Seed, ver: M2Version) {
         for f in walker::check_layout(&s, &hs, &seed_expect(seed), "seed") {
             t.viol(f.symptom, f.detail);
         }
-        keyframes_vs_seed(&mut t, "seed", &s, &hs, seed, vnum);
+        keyframes_vs_seed(&mut t, "seed", &s, &hs, seed, vnum, &Unjudged::default());
         assert!(t.viols.is_empty(), "emitter/walker self-check failed: {:?}", t.viols);
     }
     let p0 = match m2_parse(&s) {
@@ -586,18 +740,25 @@ fn seed_case(r: &mut CaseResult, seed: &emit::Seed, ver: M2Version) {
     let w1 = step!(r, m2_write(&p0), "write(parse(seed))", true);
     r.count("writes", 1);
     r.count("bytes_written", w1.len() as u64);
-    let Some(h1) = walk(r, &w1, "write(parse(seed))", &seed_expect(seed)) else { return };
-    keyframes_vs_seed(r, "key frames not preserved by parse→write", &w1, &h1, seed, vnum);
-    let p1 = step!(r, m2_parse(&w1), "parse(write(parse(seed)))", false);
-    diff_sections(r, "parse(write(p)) differs from p = parse(seed)", &cmp::sections(&p0, true), &cmp::sections(&p1, true));
-    let w2 = step!(r, m2_write(&p1), "write(parse(write(parse(seed))))", false);
-    byte_diff(r, "second write is not byte-identical to the first", &w1, &w2);
-
-    // conversions of the parsed seed
+    let n0 = r.viols.len();
+    let Some((h1, _)) = walk(r, &w1, "write(parse(seed))", &seed_expect(seed)) else { return };
+    if r.viols.len() != n0 {
+        return;
+    }
+    let lost = keyframes_vs_seed(r, "key frames not preserved by parse→write", &w1, &h1, seed, vnum, &Unjudged::default());
+    if lost.clean() {
+        let p1 = step!(r, m2_parse(&w1), "parse(write(parse(seed)))", false);
+        if diff_sections(r, "parse(write(p)) differs from p = parse(seed)", &cmp::sections(&p0, true), &cmp::sections(&p1, true)) == 0 {
+            let w2 = step!(r, m2_write(&p1), "write(parse(write(parse(seed))))", false);
+            byte_diff(r, "second write is not byte-identical to the first", &w1, &w2);
+        }
+    } else {
+        r.outcome.push_str("keyframes_lost;");
+    }
+    // conversions of the parsed seed; what the plain round trip already lost is not judged again
     for (tname, to) in gen::VERSIONS {
-        let b = to.to_header_version();
         let mut t = CaseResult::new();
-        conv_seed(&mut t, &p0, seed, ver, to, &w1);
+        conv_seed(&mut t, &p0, seed, ver, to, &w1, &lost);
         for v in t.viols {
             r.viol(v.symptom, format!("to {tname}: {}", v.detail));
         }
@@ -605,11 +766,10 @@ fn seed_case(r: &mut CaseResult, seed: &emit::Seed, ver: M2Version) {
             r.count("conversions_refused", 1);
         }
         r.count("conversions", 1);
-        let _ = b;
     }
 }
 
-fn conv_seed(r: &mut CaseResult, p0: &M2Model, seed: &emit::Seed, _from: M2Version, to: M2Version, w1: &[u8]) {
+fn conv_seed(r: &mut CaseResult, p0: &M2Model, seed: &emit::Seed, _from: M2Version, to: M2Version, w1: &[u8], lost: &Unjudged) {
     let a = seed.version;
     let b = to.to_header_version();
     let c = step!(r, call(|| p0.convert(to).map_err(|e| e.to_string())), "convert(parse(seed))", true);
@@ -622,14 +782,19 @@ fn conv_seed(r: &mut CaseResult, p0: &M2Model, seed: &emit::Seed, _from: M2Versi
     if b > 263 {
         exp.retain(|(s, _)| *s != "views");
     }
-    let Some(hc) = walk(r, &wc, "write(convert(parse(seed)))", &exp) else { return };
+    let n0 = r.viols.len();
+    let Some((hc, _)) = walk(r, &wc, "write(convert(parse(seed)))", &exp) else { return };
     if hc.version != b {
         r.viol("converted file does not carry the target header version", format!("wanted {b} got {}", hc.version));
         return;
     }
-    // record layouts that differ between the two versions need the seed re-expressed: the
-    // key frames themselves (timestamps, values) are representable on both sides
-    keyframes_vs_seed(r, "conversion loses key frames", &wc, &hc, seed, a);
+    if r.viols.len() != n0 {
+        return;
+    }
+    // the key frames themselves (timestamps, values) are representable on both sides
+    if !keyframes_vs_seed(r, "conversion loses key frames", &wc, &hc, seed, a, lost).comps.is_empty() {
+        return;
+    }
     let _pc = step!(r, m2_parse(&wc), "parse(write(convert(parse(seed))))", false);
 }
 
@@ -638,8 +803,8 @@ fn conv_seed(r: &mut CaseResult, p0: &M2Model, seed: &emit::Seed, _from: M2Versi
 fn build(name: &str, _arg: &str, tier: Tier) -> Box<dyn Space> {
     vcore::alloc::HARD_CAP.store(1usize << 30, std::sync::atomic::Ordering::Relaxed);
     match name {
-        "m2" => Box::new(M2Space { models: enum_models(tier.pick(2, 3)) }),
-        "m2conv" => Box::new(ConvSpace { models: enum_models(tier.pick(1, 2)) }),
+        "m2" => Box::new(M2Space::new(tier.pick(2, 3), tier.pick(&[0][..], &[0, 4][..]))),
+        "m2conv" => Box::new(ConvSpace { models: enum_models(tier.pick(1, 2)), rotations: tier.pick(vec![0], vec![0, 4]) }),
         "seed" => Box::new(SeedSpace::new(tier)),
         "skin" => Box::new(skinfile::SkinSpace::new(tier)),
         "anim" => Box::new(animfile::AnimSpace::new(tier)),
@@ -697,8 +862,9 @@ fn main() {
     let Mode::Supervisor(mut c) = start("C13", "exploration", build) else { return };
     let k = c.tier.pick(2, 3);
     c.rule = format!(
-        "m2: every model within <= {k} site deviations of the all-empty and of the all-populated baseline ({} sites, 3-5 population levels each: empty/one/three, names none/short/255 chars, textures unnamed/named, float pool ±0,1,-1.5,MAX,MIN_POSITIVE,±inf,subnormal) x 5 versions; m2conv: every model within <= {} deviations x all 25 (from,to) pairs x 2 entry points; seed: byte-level MD20 files carrying 1 or 3 key frames in 1 or 3 records for every subset of <= {} of the 10 animated sections (+ all ten) x shared-timestamps yes/no x 5 versions, each also converted to all 5 versions; skin: full product of 5 sections x {{empty,one,many}} x 6 header layouts x conversions; anim: full product format x sections x bones x track mask x keys. A case is non-trivial when at least one section is populated; distinct by its axis tuple.",
+        "m2: every model within <= {k} site deviations of the all-empty and of the all-populated baseline ({} sites, 3-5 population levels each: empty/one/three, names none/short/255 chars, textures unnamed/named, float pool ±0,1,-1.5,MAX,MIN_POSITIVE,±inf,subnormal) x 8 header numbers (5 versions + 257, 263, 271) x {} rotation(s) of the float pool over the fields; m2conv: every model within <= {} deviations x all 25 (from,to) pairs x 2 entry points x the same rotations; seed: byte-level MD20 files carrying 1 or 3 key frames (or none) in 1 or 3 records for every subset of <= {} of the 11 animated sections (+ all eleven) x variant {{plain, shared timestamp arrays, key-less tracks with non-default header}} x 5 versions, each also converted to all 5 versions; skin: full product of 5 sections x {{empty,one,many}} x 6 header layouts x conversions; anim: full product format x sections x bones x track mask x keys. A case is non-trivial when at least one section is populated; distinct by its axis tuple.",
         gen::SITES.len(),
+        c.tier.pick(1, 2),
         c.tier.pick(1, 2),
         c.tier.pick(2, 3)
     );
@@ -716,7 +882,7 @@ fn main() {
     c.extra_cov.insert(
         "axes".into(),
         json!({"versions": 5, "m2_sites": gen::SITES.len(), "m2_levels_per_site": sites, "m2_max_deviations": k, "conversion_pairs": 25, "conversion_entry_points": 2,
-               "seed_tracked_sections": emit::TRACKED.len(), "seed_records": [1, 3], "seed_keys": [1, 3], "seed_shared_timestamps": 2,
+               "seed_tracked_sections": emit::TRACKED.len(), "seed_records": [1, 3], "seed_keys": [0, 1, 3], "seed_variants": emit::VARIANTS, "m2_header_numbers": 8,
                "skin_layouts": skinfile::LAYOUTS.len(), "skin_sections": 5, "skin_levels": 3, "anim_formats": 2}),
     );
     c.finish();
